@@ -62,6 +62,9 @@ type rcCfg struct {
 	KeepAliveOpt     uint16         // mqtt.WithKeepAlive(seconds) connect option (the reconnecting client derives its ping interval from it)
 	CancelConnectCtx bool           // Connect gets a cancellable context which the application cancels as soon as Connect has returned (the usual `defer cancel()`)
 	GrantMax         *byte          // the broker grants at most this QoS in SUBACK (nil: what was requested)
+	Reentrant        bool           // callbacks call back into the client: ConnState reads Done/Err/Stats of its BaseClient and publishes a QoS 0 note through the retrying client on Active; OnError publishes a QoS 0 alarm; the message handler re-registers itself and publishes a QoS 0 echo
+	ReuseBase        bool           // the dialer hands out one and the same *BaseClient every time, with a fresh Transport
+	EOFWriteErrors   bool           // a write on a broken link fails with an error that wraps io.EOF
 	PipeErrors       bool           // a locally closed transport reports io.ErrClosedPipe (net.Pipe) instead of a socket-style *net.OpError wrapping net.ErrClosed
 	HandleInState    bool           // the application (re-)registers its handler from inside the ConnState callback, on every StateActive
 	Manual           bool           // no ReconnectClient: the application drives a bare RetryClient itself (dial, SetClient, Connect, Resubscribe, Retry, wait for Done, redial)
@@ -159,6 +162,7 @@ func rcExecuteInto(cfg *rcCfg, out **rcRun) *rcRun {
 	*out = r
 	r.net = env.NewNet()
 	r.net.PipeErrors = cfg.PipeErrors
+	r.net.EOFWriteErrors = cfg.EOFWriteErrors
 	r.broker = env.NewBroker(r.net)
 	r.broker.Faults = cfg.Faults
 	r.broker.KeepSession = cfg.KeepSession
@@ -183,6 +187,7 @@ func rcExecuteInto(cfg *rcCfg, out **rcRun) *rcRun {
 		}
 	}
 	dials := 0
+	reuseID := 0
 	vrt.W.RandInt31n = func(n int32) int32 { return int32(1000*dials - 1) }
 	dialer := mqtt.DialerFunc(func(ctx vctx.Context) (*mqtt.BaseClient, error) {
 		conn, err := r.broker.Dial()
@@ -191,12 +196,30 @@ func rcExecuteInto(cfg *rcCfg, out **rcRun) *rcRun {
 		}
 		dials++
 		id := conn.ID
+		if cfg.ReuseBase && len(r.bases) > 0 {
+			// one BaseClient object for every connection: only the transport is new
+			b := r.bases[0]
+			b.Transport = conn
+			reuseID = id
+			r.bases = append(r.bases, b)
+			return b, nil
+		}
+		reuseID = id
 		var b *mqtt.BaseClient
 		b = &mqtt.BaseClient{Transport: conn, ConnState: func(s mqtt.ConnState, err error) {
+			if cfg.ReuseBase {
+				id = reuseID
+			}
 			r.states = append(r.states, rcState{id, s, err, vrt.Now()})
 			r.ev(fmt.Sprintf("state %d %v", id, s))
 			if vrt.Tracing() {
 				vrt.Tracef("   connstate c%d: %v (%v)", id, s, err)
+			}
+			if cfg.Reentrant {
+				_, _, _ = b.Done(), b.Err(), b.Stats()
+				if s == mqtt.StateActive && r.rc != nil {
+					r.rc.Publish(vctx.Background(), &mqtt.Message{Topic: "note/connstate", Payload: []byte(fmt.Sprintf("active-c%d", id))})
+				}
 			}
 			if cfg.HandleInState && s == mqtt.StateActive && r.rc != nil {
 				name := fmt.Sprintf("hs%d", id)
@@ -219,6 +242,12 @@ func rcExecuteInto(cfg *rcCfg, out **rcRun) *rcRun {
 		r.onErr = append(r.onErr, err)
 		r.onErrAt = append(r.onErrAt, vrt.Now())
 		r.ev("onerror")
+		if cfg.Reentrant && r.rc != nil {
+			_ = r.rc.Stats()
+			if len(r.onErr) <= 2 { // the alarm itself may fail and be reported: no endless ping-pong
+				r.rc.Publish(vctx.Background(), &mqtt.Message{Topic: "note/alarm", Payload: []byte("alarm")})
+			}
+		}
 		if vrt.Tracing() {
 			vrt.Tracef("   OnError: %v", err)
 		}
@@ -247,9 +276,14 @@ func rcExecuteInto(cfg *rcCfg, out **rcRun) *rcRun {
 		r.rc = rc
 	}
 	rc := r.rc
-	h := mqtt.HandlerFunc(func(m *mqtt.Message) {
+	var h mqtt.HandlerFunc
+	h = mqtt.HandlerFunc(func(m *mqtt.Message) {
 		r.handled = append(r.handled, string(m.Payload))
 		r.ev("handled " + string(m.Payload))
+		if cfg.Reentrant {
+			rc.Handle(h)
+			rc.Publish(vctx.Background(), &mqtt.Message{Topic: "note/echo", Payload: []byte("echo")})
+		}
 	})
 	if cfg.HandlerPhase == 'B' {
 		rc.Handle(h)
